@@ -100,9 +100,19 @@ func (d *DurationStats) Record(nanoseconds int64) {
 }
 
 func (d *DurationStats) CollectLifetime() (IterationDurationsSnapshot, IterationDurationsSnapshot) {
-	running := d.running.Snapshot()
-	d.lifetime.Update(&d.running)
-	d.running.Reset()
+	// read and clear each period figure in one atomic step: a Record that arrives while the
+	// period is being collected is either part of it or stays for the next one, never lost
+	var period IterationDurations
+	d.running.moveTo(&period)
+	d.lifetime.Update(&period)
 
-	return running, d.lifetime.Snapshot()
+	return period.Snapshot(), d.lifetime.Snapshot()
+}
+
+// moveTo stores the current figures in dst and leaves zeroes behind.
+func (i *IterationDurations) moveTo(dst *IterationDurations) {
+	dst.sum.Store(i.sum.Swap(0))
+	dst.count.Store(i.count.Swap(0))
+	dst.max.Store(i.max.Swap(0))
+	dst.min.Store(i.min.Swap(0))
 }
